@@ -88,6 +88,8 @@ pub struct SSig {
 
 #[derive(Clone, Debug)]
 pub struct SBlock {
+    /// list the first signature a second time under this key id (no key of the pool has it)
+    pub dup_first_sig_as: Option<String>,
     pub sigs: Vec<SSig>,
     pub meta: SMeta,
     /// content that was signed, if it differs from `meta` (tampering after signing)
@@ -123,6 +125,9 @@ pub struct Scenario {
     /// (`extra` = a listed key entered once more under an id of its own making, `swap` = two listed
     /// keys under each other's ids)
     pub mem_refile: Option<&'static str>,
+    /// the second caller key is the first one once more, read from a description of it that carries
+    /// another `keyid` member; the layout lists the owner's signature a second time under that id
+    pub alias_described: bool,
 }
 
 // ------------------------------------------------------------------ materialisation
@@ -238,6 +243,9 @@ pub fn block_text(pool: &[KeyInfo], b: &SBlock) -> String {
         }
         sigs.push(json!({"keyid": kid(pool, s.label), "sig": hex(&v)}));
     }
+    if let (Some(label), Some(first)) = (&b.dup_first_sig_as, sigs.first().cloned()) {
+        sigs.push(json!({"keyid": label, "sig": first["sig"].clone()}));
+    }
     json!({"signatures": sigs, "signed": signed}).to_string()
 }
 
@@ -247,24 +255,41 @@ pub fn sig_valid(b: &SBlock, s: &SSig, pool: &[KeyInfo]) -> bool {
 }
 
 pub fn write_dir(pool: &[KeyInfo], d: &SDir, at: &Path) {
+    write_dir_ordered(pool, d, at, false)
+}
+
+/// `reversed`: create the entries (files and sub-directories alike) in the opposite order - on a file
+/// system that lists a directory by age (tmpfs) the listing order is then the opposite one
+pub fn write_dir_ordered(pool: &[KeyInfo], d: &SDir, at: &Path, reversed: bool) {
     std::fs::create_dir_all(at).unwrap();
-    for (name, f) in &d.files {
-        let text = match f {
-            SFile::Garbage => "{ this is not a link file".to_string(),
-            SFile::Block(b) => block_text(pool, b),
-        };
-        if d.symlinked.contains(name) {
-            // the real file lives in a side directory; the link directory holds a relative symbolic link
-            let store = at.join(".itv-store");
-            std::fs::create_dir_all(&store).unwrap();
-            std::fs::write(store.join(name), text).unwrap();
-            std::os::unix::fs::symlink(Path::new(".itv-store").join(name), at.join(name)).unwrap();
-        } else {
-            std::fs::write(at.join(name), text).unwrap();
-        }
+    enum E<'a> {
+        F(&'a String, &'a SFile),
+        D(&'a String, &'a SDir),
     }
-    for (name, sub) in &d.subs {
-        write_dir(pool, sub, &at.join(name));
+    let mut entries: Vec<E> = d.files.iter().map(|(n, f)| E::F(n, f)).collect();
+    entries.extend(d.subs.iter().map(|(n, x)| E::D(n, x)));
+    if reversed {
+        entries.reverse();
+    }
+    for e in entries {
+        match e {
+            E::F(name, f) => {
+                let text = match f {
+                    SFile::Garbage => "{ this is not a link file".to_string(),
+                    SFile::Block(b) => block_text(pool, b),
+                };
+                if d.symlinked.contains(name) {
+                    // the real file lives in a side directory; the link directory holds a relative symbolic link
+                    let store = at.join(".itv-store");
+                    std::fs::create_dir_all(&store).unwrap();
+                    std::fs::write(store.join(name), text).unwrap();
+                    std::os::unix::fs::symlink(Path::new(".itv-store").join(name), at.join(name)).unwrap();
+                } else {
+                    std::fs::write(at.join(name), text).unwrap();
+                }
+            }
+            E::D(name, sub) => write_dir_ordered(pool, sub, &at.join(name), reversed),
+        }
     }
 }
 
@@ -354,13 +379,20 @@ fn enc_meta(pool: &[KeyInfo], m: &SMeta) -> String {
 }
 
 fn enc_block(pool: &[KeyInfo], b: &SBlock) -> String {
-    let mut out = format!("B {}", b.sigs.len());
+    let mut out = format!("B {}", sig_count(b));
     for s in &b.sigs {
         out.push_str(&format!(" {}:{}", kid(pool, s.label), if sig_valid(b, s, pool) { 1 } else { 0 }));
+    }
+    if let (Some(label), true) = (&b.dup_first_sig_as, !b.sigs.is_empty()) {
+        out.push_str(&format!(" {}:0", label));
     }
     out.push(' ');
     out.push_str(&enc_meta(pool, &b.meta));
     out
+}
+
+fn sig_count(b: &SBlock) -> usize {
+    b.sigs.len() + if b.dup_first_sig_as.is_some() && !b.sigs.is_empty() { 1 } else { 0 }
 }
 
 fn enc_dir(pool: &[KeyInfo], d: &SDir) -> String {
@@ -425,15 +457,36 @@ pub struct Outcome {
 
 /// Run the real `in_toto_verify` on the scenario in a fresh scratch directory and build the model's op.
 pub fn run(pool: &[KeyInfo], s: &Scenario) -> Outcome {
-    let tmp = tempfile::Builder::new().prefix("itv-e2e-").tempdir().unwrap();
+    run_in(pool, s, None, false)
+}
+
+/// `base`: where the scratch directory is made (default: the system's temporary directory);
+/// `reversed`: the link directory's entries are created in the opposite order
+pub fn run_in(pool: &[KeyInfo], s: &Scenario, base: Option<&Path>, reversed: bool) -> Outcome {
+    let b = tempfile::Builder::new();
+    let mut b = b;
+    b.prefix("itv-e2e-");
+    let tmp = match base {
+        Some(p) => b.tempdir_in(p).unwrap(),
+        None => b.tempdir().unwrap(),
+    };
     let links = tmp.path().join("links");
     let cwd = tmp.path().join("cwd");
     std::fs::create_dir_all(&cwd).unwrap();
-    write_dir(pool, &s.dir, &links);
+    write_dir_ordered(pool, &s.dir, &links, reversed);
     std::fs::write(cwd.join("foo"), b"foo content").unwrap();
     let text = block_text(pool, &s.block);
     let mut keys: HashMap<KeyId, PublicKey> = HashMap::new();
     for (n, &k) in s.caller_keys.iter().enumerate() {
+        if s.alias_described && n > 0 {
+            let fake = format!("{:064x}", 0xa11a5u64 + n as u64);
+            let mut j = serde_json::to_value(pool[k].public()).unwrap();
+            j["keyid"] = json!(fake.clone());
+            if let Ok(Ok(pk)) = guarded(move || serde_json::from_value::<PublicKey>(j)) {
+                keys.insert(KeyId::from_str(&fake).unwrap(), pk);
+            }
+            continue;
+        }
         let id = if s.alias_ids && n > 0 {
             // the same key filed a second time under an unrelated id
             KeyId::from_str(&format!("{:064x}", n)).unwrap()
@@ -620,6 +673,9 @@ pub struct Gen<'a> {
     /// the moment of verification of the scenario being generated (differs from scenario to scenario, so
     /// that a clock reading carried over from an earlier verification shows)
     pub now: DateTime<Utc>,
+    /// keys of the enclosing layout's functionaries: a sub-layout's functionaries are drawn from them
+    /// now and then (one person, two roles - and link files of the same name on two levels)
+    pub reuse_keys: Vec<usize>,
 }
 
 /// A moment of verification: mostly near `base_now`, sometimes years away from it.
@@ -641,6 +697,9 @@ impl<'a> Gen<'a> {
         while v.len() < n && guard < 200 {
             guard += 1;
             let mut k = self.r.below(self.pool.len());
+            if !self.reuse_keys.is_empty() && self.r.chance(1, 3) {
+                k = *self.r.pick(&self.reuse_keys);
+            }
             // (every third selection starts with a key that has a twin in the pool, if there is one)
             if guard == 1 && n >= 2 && self.r.chance(1, 3) {
                 let tw: Vec<usize> = (0..self.pool.len()).filter(|&a| (0..self.pool.len()).any(|b| b != a && prefix8(self.pool, a) == prefix8(self.pool, b) && kid(self.pool, a) != kid(self.pool, b))).collect();
@@ -666,6 +725,9 @@ impl<'a> Gen<'a> {
         let mut dir = SDir::default();
         let mut prev_prods: Vec<(String, u8)> = vec![];
         let mut delegated = false;
+        // (the artifacts of a sub-layout's steps are not those of the enclosing layout's steps: a link of
+        // one level taken for the like-named link of the other does not pass)
+        let salt = if path.is_empty() { String::new() } else { format!("-d{}", path.matches('/').count() + 1) };
         // step names: distinct, free of glob metacharacters, otherwise anything a file name may hold
         // (dots, spaces, non-ASCII letters, a leading dot) - they become parts of file and directory names
         let step_names: Vec<String> = (0..nsteps)
@@ -701,10 +763,12 @@ impl<'a> Gen<'a> {
             let auth: Vec<usize> = funs.iter().cloned().take(nauth).collect();
             let threshold = threshold.min(auth.len() as u32);
             let mats = prev_prods.clone();
-            let mut prods = mats.clone();
+            // (a multi-party step now and then consumes its inputs: its products are the new artifact alone,
+            // so that materials and products have no path in common)
+            let mut prods = if self.multi_party && i > 0 && self.r.chance(1, 3) { vec![] } else { mats.clone() };
             // (multi-party scenarios record two digest algorithms per artifact: sha256 = v, sha512 = v + 1)
-            prods.push((format!("out{}", i), if self.multi_party { 4 * (1 + i as u8) + 3 } else { 1 + (i as u8) }));
-            if i > 0 && self.r.chance(1, 3) {
+            prods.push((format!("out{}{}", i, salt), if self.multi_party { 4 * (1 + i as u8) + 3 } else { 1 + (i as u8) }));
+            if i > 0 && prods.len() > 1 && self.r.chance(1, 3) {
                 prods[0].1 = 9; // modified
             }
             let mat_rules = if i == 0 {
@@ -715,7 +779,7 @@ impl<'a> Gen<'a> {
                     ArtifactRule::Disallow(vp("*")),
                 ]
             };
-            let prod_rules = vec![ArtifactRule::Create(vp(&format!("out{}", i))), ArtifactRule::Allow(vp("*"))];
+            let prod_rules = vec![ArtifactRule::Create(vp(&format!("out{}{}", i, salt))), ArtifactRule::Allow(vp("*"))];
             // evidence: every authorized key provides a link (more than the threshold needs, sometimes)
             let nlinks = if self.multi_party || self.r.chance(1, 2) { auth.len() } else { threshold as usize };
             let mut shared: Option<(SBlock, SDir)> = None;
@@ -742,6 +806,7 @@ impl<'a> Gen<'a> {
                         None => {
                             let (auth_now, co_now) = (auth.clone(), self.co_delegate);
                             self.co_delegate = false;
+                            self.reuse_keys = funs.clone();
                             let x = self.valid_layout(depth - 1, &subpath, if co { &auth_now } else { std::slice::from_ref(&k) }, inner_insp);
                             self.co_delegate = co_now;
                             let mut b = x.0;
@@ -769,7 +834,7 @@ impl<'a> Gen<'a> {
                     dir.files.push((fname, SFile::Block(b)));
                     dir.subs.push((subname, subdir));
                 } else {
-                    dir.files.push((fname, SFile::Block(SBlock { sigs: vec![SSig { label: k, signer: k, corrupt: false }], meta: SMeta::Link(link), signed_over: None })));
+                    dir.files.push((fname, SFile::Block(SBlock { dup_first_sig_as: None, sigs: vec![SSig { label: k, signer: k, corrupt: false }], meta: SMeta::Link(link), signed_over: None })));
                 }
             }
             // the expected command: absent, the recorded one, a proper prefix of it, longer, or different
@@ -824,7 +889,7 @@ impl<'a> Gen<'a> {
         }
         let layout = SLayout { expires: self.now + Duration::days(30), keys, steps, inspect, readme: "readme".into(), offset_min: None, resplit_commands: false };
         let sigs = signers.iter().map(|&k| SSig { label: k, signer: k, corrupt: false }).collect();
-        (SBlock { sigs, meta: SMeta::Layout(layout), signed_over: None }, dir)
+        (SBlock { dup_first_sig_as: None, sigs, meta: SMeta::Layout(layout), signed_over: None }, dir)
     }
 
     pub fn valid(&mut self, depth: usize, allow_insp: bool) -> Scenario {
@@ -832,7 +897,7 @@ impl<'a> Gen<'a> {
         let nown = 1 + self.r.below(2);
         let owners = self.pick_keys(nown, &[]);
         let (block, dir) = self.valid_layout(depth, "", &owners, allow_insp);
-        Scenario { block, caller_keys: owners, alias_ids: false, dir, name: if self.r.chance(1, 2) { Some("final".into()) } else { None }, now: self.now, faults: vec![], mem_refile: None }
+        Scenario { block, caller_keys: owners, alias_ids: false, dir, name: if self.r.chance(1, 2) { Some("final".into()) } else { None }, now: self.now, faults: vec![], mem_refile: None, alias_described: false }
     }
 }
 
